@@ -222,6 +222,11 @@ _binary("Xor", lambda a, b: a ^ b, ("bool",))
 @op("Pow", tol="math")
 def mk_pow(g):
     a = g.pick(dt=("f32", "i32"), positive=True)
+    if a.dt == "i32" and g.rng.chance(1, 3):
+        # Mixed types: the result has the type of the base (small integral
+        # exponents keep the reference exact).
+        b = g.const("f32", g.rng.array("i32", bshape(g, a.shape), lo=0, hi=3).astype(np.float32))
+        return g.node("Pow", [a, b], lambda a, b: np.power(a.astype(np.float64), b.astype(np.float64)).astype(np.int32), out_dts=["i32"])
     if a.dt == "i32":
         b = g.const("i32", g.rng.array("i32", bshape(g, a.shape), lo=0, hi=3))
         return g.node("Pow", [a, b], lambda a, b: np.power(a.astype(np.int64), b.astype(np.int64)).astype(np.int32))
@@ -1341,21 +1346,50 @@ def mk_resize(g):
 
 # ------------------------------------------------------------------ quantization
 
-@op("QuantizeLinear", tol="exact", c15=True)
+@op("QuantizeLinear", tol="exact", c15=True, cases=3)
 def mk_quantize(g):
+    r = g.rng
     x = g.pick(dt=F, lo=-20.0, hi=20.0)
-    zdt = g.rng.choose(["u8", "i8"])
-    scale = g.const("f32", np.float32(g.rng.choose([0.125, 0.25, 0.5, 1.0])))
-    zp = g.const(zdt, g.rng.array(zdt, (), lo=0 if zdt == "u8" else -10, hi=20))
+    zdt = r.choose(["u8", "i8"])
     from . import pb
+    attrs = {}
+    # Per-axis scale / zero point on a random axis, or per-tensor scalars.
+    axis = None
+    if x.rank >= 1 and r.chance(1, 3):
+        axis = r.range(0, x.rank - 1)
+        n = x.shape[axis]
+        scale = g.const("f32", np.array([r.choose([0.125, 0.25, 0.5, 1.0]) for _ in range(n)], dtype=np.float32))
+        zp = g.const(zdt, r.array(zdt, (n,), lo=0 if zdt == "u8" else -10, hi=20))
+        attrs["axis"] = axis if r.bool() else axis - x.rank
+    else:
+        scale = g.const("f32", np.float32(r.choose([0.125, 0.25, 0.5, 1.0])))
+        zp = g.const(zdt, r.array(zdt, (), lo=0 if zdt == "u8" else -10, hi=20))
+    out_dt = zdt
+    if g.opset >= 21 and r.chance(1, 2):
+        # output_dtype (opset 21): alone, or together with a zero point of the same type.
+        attrs["output_dtype"] = pb.DT2ONNX[zdt]
+        if r.bool():
+            zp = None
+        elif r.chance(1, 3):
+            # Contradicting zero-point type: invalid, rten is expected to refuse it
+            # (the reference follows the attribute).
+            out_dt = "i8" if zdt == "u8" else "u8"
+            attrs["output_dtype"] = pb.DT2ONNX[out_dt]
 
-    def ref(x, s, z):
-        info = np.iinfo(pb.DT2NP[zdt])
-        q = np.round(x.astype(np.float64) / float(s)) + int(z)   # round half to even
+    def ref(x, s, z=None):
+        info = np.iinfo(pb.DT2NP[out_dt])
+        sh = [1] * x.ndim
+        if axis is not None:
+            sh[axis] = -1
+        sv = np.asarray(s, dtype=np.float64).reshape(sh) if axis is not None else float(s)
+        zv = 0 if z is None else (np.asarray(z, dtype=np.int64).reshape(sh) if axis is not None else int(z))
+        t = x.astype(np.float64) / sv
+        # exact ties only: an x/scale within rounding distance of .5 is precision dependent
+        q = np.round(t) + zv   # round half to even
         if np.any(np.isnan(q)):
             raise Invalid("NaN quantisation unspecified")
-        return np.clip(q, info.min, info.max).astype(pb.DT2NP[zdt])
-    return g.node("QuantizeLinear", [x, scale, zp], ref, out_dts=[zdt])
+        return np.clip(q, info.min, info.max).astype(pb.DT2NP[out_dt])
+    return g.node("QuantizeLinear", [x, scale, zp], ref, attrs, out_dts=[out_dt])
 
 
 @op("DequantizeLinear", tol="exact")
